@@ -66,11 +66,11 @@ MANIFEST = dict(
          'unchanged and returns only new objects; in-place operators leave everything separated from the receiver '
          'unchanged. Instancing: a collapse_one run with no template-tagged store or stored value leaves the template '
          'unchanged. Tie (every run): translators regenerate the five Gen tables from vmf.py, keyvalues.py, math.py, '
-         'instancing.py; 152 named instance obligations (per census label — 20 labels incl. Keyvalues_deepcopy / _pickle, EntityFixup_pickle: '
+         'instancing.py; 153 named instance obligations (per census label — 20 labels incl. Keyvalues_deepcopy / _pickle, EntityFixup_pickle: '
          'copy_covers_fields, copy_fresh_mutables, copy_sources_match, copy_args_lossless, copy_export_equal, '
          'export_reads_are_fields; per kv branch; per operator family; collapse_*; table level incl. '
          'all_classes_complete_and_independent, conditional_rows_are_joins, census_labels_of_a_class_agree, pickle_state_*:Output, '
-         'pickle_short_form_restores_export_equal:Output, instance_from_entity_shares_only_outputs); census vs run-time identities, '
+         'pickle_short_form_restores_export_equal:Output, instance_from_entity_shares_only_outputs, copy_hooks_delegate_to_copy); census vs run-time identities, '
          'argument flows vs the real constructors on boundary values, export reads vs traced attribute reads, operator '
          'rows vs real calls, kv model vs implementation; exported real object graphs certified in the kernel (separation; '
          'census rows: independence premises and completeness premises). Search: identity walk, export equality modulo IDs, random in-place mutation histories on either '
@@ -1740,6 +1740,9 @@ def run(ck: Ck) -> None:
         obs['pickle_short_form_restores_export_equal:Output'] = ('short_ok output_short_rows && short_rows_cover output_state_tail '
                                                                  'output_short_rows && Nat.eqb (List.length output_short_rows) %d'
                                                                  % len(side.get('pickle_state', {}).get('Output', {}).get('short_rows', [])))
+        # copy.copy(x) of a map object whose class defines __copy__ must be x.copy() (a hook that is not a plain delegation is an
+        # uncensused copy path; the search exercises the hook as copy variant 'copy.copy')
+        obs['copy_hooks_delegate_to_copy'] = 'forallb snd copy_hooks && Nat.eqb (List.length copy_hooks) %d' % len(side.get('copy_hooks', []))
         # premise of c09_cond_rows_checked: every conditional row is the join (weaker) of its two branch rows
         obs['conditional_rows_are_joins'] = 'cond_rows_ok all_census cond_rows && Nat.eqb (List.length cond_rows) %d' % len(side.get('cond_rows', []))
         # premise of c09_labels_of_a_class_same_mask: the census label of an exported node may be derived from its type name
@@ -1836,6 +1839,7 @@ def run(ck: Ck) -> None:
         ck.explain('certificate:export_ok')
         ck.explain('correspondence:census_vs_runtime')      # the census says "copied", the real copy shares: that input
     if any_key('shared-mutable:', 'mutation-visible:', 'copy-incomplete:'):
+        ck.explain('instance:copy_hooks_delegate_to_copy')
         ck.explain('instance:all_classes_complete_and_independent')
         ck.explain('certificate:census_rows_hold')
         ck.explain('certificate:export_rows_hold')
